@@ -590,6 +590,39 @@ func c14Alphabet() []*c14Step {
 // ---------------------------------------------------------------------------
 // The real side: one Evaler per history.
 
+// c14Repr is vals.ReprPlain guarded against values that contain themselves: an
+// in-place update of a shared container can make a value cyclic, and Repr of a
+// cyclic value overflows the Go stack, which cannot be recovered from. Values of
+// the histories nest a dozen levels at most.
+func c14Repr(v any) string {
+	if !c14Shallow(v, 40) {
+		return "<value nested deeper than 40 levels: it contains itself>"
+	}
+	return vals.ReprPlain(v)
+}
+
+func c14Shallow(v any, limit int) bool {
+	if limit == 0 {
+		return false
+	}
+	switch v := v.(type) {
+	case vals.List:
+		for it := v.Iterator(); it.HasElem(); it.Next() {
+			if !c14Shallow(it.Elem(), limit-1) {
+				return false
+			}
+		}
+	case vals.Map:
+		for it := v.Iterator(); it.HasElem(); it.Next() {
+			k, e := it.Elem()
+			if !c14Shallow(k, limit-1) || !c14Shallow(e, limit-1) {
+				return false
+			}
+		}
+	}
+	return true
+}
+
 type c14Alias struct {
 	kind string // var, closure, container, elements, derived, other-var, output, output-element, body-output
 	expr string // elvish expression producing exactly one value; "" for a value kept on the Go side
@@ -691,7 +724,7 @@ func (r *c14Run) observe() (a, b string, got []string, problem string) {
 	if p != "" || exc != "" || len(outs) != n {
 		return "", "", nil, fmt.Sprintf("reading the aliases failed: %s%s (%d values, want %d)", exc, p, len(outs), n)
 	}
-	a, b = vals.ReprPlain(outs[0]), vals.ReprPlain(outs[1])
+	a, b = c14Repr(outs[0]), c14Repr(outs[1])
 	got = make([]string, len(r.aliases))
 	k, kc := 2, n
 	for _, al := range r.aliases {
@@ -702,13 +735,13 @@ func (r *c14Run) observe() (a, b string, got []string, problem string) {
 	for i, al := range r.aliases {
 		switch {
 		case al.call:
-			got[i] = vals.ReprPlain(outs[kc])
+			got[i] = c14Repr(outs[kc])
 			kc++
 		case al.expr != "":
-			got[i] = vals.ReprPlain(outs[k])
+			got[i] = c14Repr(outs[k])
 			k++
 		default:
-			got[i] = vals.ReprPlain(al.val)
+			got[i] = c14Repr(al.val)
 		}
 	}
 	return a, b, got, ""
@@ -792,7 +825,7 @@ func c14RunHistory(shapes []*c14Val, alpha []*c14Step, nd c14Node) (res c14Resul
 		outs, exc, p := r.eval(code)
 		var outReprs []string
 		for _, o := range outs {
-			outReprs = append(outReprs, vals.ReprPlain(o))
+			outReprs = append(outReprs, c14Repr(o))
 		}
 		if !last {
 			if p != "" || (exc != "") != want.exc {
